@@ -19,6 +19,7 @@ from functools import wraps
 from itertools import count
 from math import inf
 from opcode import opname
+from sys import float_info
 from types import BuiltinFunctionType, BuiltinMethodType, CodeType, MethodType, TracebackType
 from typing import TYPE_CHECKING, Concatenate, ParamSpec
 
@@ -1018,23 +1019,67 @@ class AbstractExecutionTracer(ABC):  # noqa: PLR0904
         """
 
 
-def _eq(val1, val2) -> float:
-    """Distance computation for '=='.
+def _not_taken(distance: float) -> float:
+    """Sanitise the distance to an outcome that was not taken.
+
+    Such a distance must be positive, but float arithmetic may round the difference of
+    two distinct values to zero (e.g., ``2**53 + 1`` and ``2**53``) or yield NaN
+    (e.g., ``inf - inf`` or NaN operands).
+
+    Args:
+        distance: the computed distance
+
+    Returns:
+        A positive distance that is not NaN
+    """
+    if distance > 0.0:
+        return distance
+    if distance == 0.0:
+        return float_info.min
+    return inf
+
+
+def _difference(val1, val2) -> float:
+    """Compute ``float(val1) - float(val2)`` for two numbers.
 
     Args:
         val1: the first value
         val2: the second value
 
     Returns:
-        the distance
+        The difference, or inf if it cannot be computed, e.g., for an integer that
+        exceeds the range of floats.
     """
     try:
-        if val1 == val2:
-            return 0.0
-    except TypeError:
-        pass
+        return float(val1) - float(val2)
+    except (TypeError, ValueError, ArithmeticError):
+        return inf
+
+
+def _eq(val1, val2, holds: bool | None = None) -> float:
+    """Distance computation for '=='.
+
+    Args:
+        val1: the first value
+        val2: the second value
+        holds: whether val1 == val2, if already known
+
+    Returns:
+        the distance
+    """
+    if holds is None:
+        try:
+            holds = bool(val1 == val2)
+        except TypeError:
+            holds = False
+    if holds:
+        return 0.0
     if is_numeric(val1) and is_numeric(val2):
-        return float(abs(val1 - val2))
+        try:
+            return _not_taken(float(abs(val1 - val2)))
+        except (TypeError, ValueError, ArithmeticError):
+            # E.g., a Decimal and a float, or an integer exceeding the range of floats
+            return inf
     if is_string(val1) and is_string(val2):
         return string_distance(val1, val2)
     if is_bytes(val1) and is_bytes(val2):
@@ -1042,35 +1087,41 @@ def _eq(val1, val2) -> float:
     return inf
 
 
-def _neq(val1, val2) -> float:
+def _neq(val1, val2, holds: bool | None = None) -> float:
     """Distance computation for '!='.
 
     Args:
         val1: the first value
         val2: the second value
+        holds: whether val1 != val2, if already known
 
     Returns:
         the distance
     """
-    if val1 != val2:
+    if holds is None:
+        holds = bool(val1 != val2)
+    if holds:
         return 0.0
     return 1.0
 
 
-def _lt(val1, val2) -> float:
+def _lt(val1, val2, holds: bool | None = None) -> float:
     """Distance computation for '<'.
 
     Args:
         val1: the first value
         val2: the second value
+        holds: whether val1 < val2, if already known
 
     Returns:
         the distance
     """
-    if val1 < val2:
+    if holds is None:
+        holds = bool(val1 < val2)
+    if holds:
         return 0.0
     if is_numeric(val1) and is_numeric(val2):
-        return (float(val1) - float(val2)) + 1.0
+        return _not_taken(_difference(val1, val2) + 1.0)
     if is_string(val1) and is_string(val2):
         return string_lt_distance(val1, val2)
     if is_bytes(val1) and is_bytes(val2):
@@ -1078,20 +1129,23 @@ def _lt(val1, val2) -> float:
     return inf
 
 
-def _le(val1, val2) -> float:
+def _le(val1, val2, holds: bool | None = None) -> float:
     """Distance computation for '<='.
 
     Args:
         val1: the first value
         val2: the second value
+        holds: whether val1 <= val2, if already known
 
     Returns:
         the distance
     """
-    if val1 <= val2:
+    if holds is None:
+        holds = bool(val1 <= val2)
+    if holds:
         return 0.0
     if is_numeric(val1) and is_numeric(val2):
-        return float(val1) - float(val2)
+        return _not_taken(_difference(val1, val2))
     if is_string(val1) and is_string(val2):
         return string_le_distance(val1, val2)
     if is_bytes(val1) and is_bytes(val2):
@@ -1099,22 +1153,25 @@ def _le(val1, val2) -> float:
     return inf
 
 
-def _in(val1, val2) -> float:
+def _in(val1, val2, holds: bool | None = None) -> float:
     """Distance computation for 'in'.
 
     Args:
         val1: the first value
         val2: the second value
+        holds: whether val1 in val2, if already known
 
     Returns:
         the distance
     """
-    try:
-        if val1 in val2:
-            return 0.0
-    except TypeError:
-        # If `val2` does not support membership tests, we will handle it below.
-        pass
+    if holds is None:
+        try:
+            holds = bool(val1 in val2)
+        except TypeError:
+            # If `val2` does not support membership tests, we will handle it below.
+            holds = False
+    if holds:
+        return 0.0
 
     # TODO(fk) maybe limit this to certain collections?
     #  Check only if collection size is within some range,
@@ -1125,24 +1182,27 @@ def _in(val1, val2) -> float:
         return inf
 
     # Use the shortest distance to any element of the iterable.
-    return min([_eq(val1, v) for v in val2] + [inf])
+    return _not_taken(min([_eq(val1, v) for v in val2] + [inf]))
 
 
-def _nin(val1, val2) -> float:
+def _nin(val1, val2, holds: bool | None = None) -> float:
     """Distance computation for 'not in'.
 
     Args:
         val1: the first value
         val2: the second value
+        holds: whether val1 not in val2, if already known
 
     Returns:
         the distance
     """
-    try:
-        if val1 not in val2:
-            return 0.0
-    except TypeError:
-        # Fallback to assuming element is not in collection if `val2` is not iterable
+    if holds is None:
+        try:
+            holds = bool(val1 not in val2)
+        except TypeError:
+            # Fallback to assuming element is not in collection if `val2` is not iterable
+            holds = True
+    if holds:
         return 0.0
     return 1.0
 
@@ -1315,40 +1375,65 @@ class ExecutionTracer(AbstractExecutionTracer):  # noqa: PLR0904
             value1 = tt.unwrap(value1)
             value2 = tt.unwrap(value2)
 
+            # The comparison of the module under test is evaluated exactly once; both
+            # distances are derived from its outcome, such that exactly one is zero.
             match cmp_op:
                 case PynguinCompare.EQ:
-                    distance_true, distance_false = _eq(value1, value2), _neq(value1, value2)
-                case PynguinCompare.NE:
-                    distance_true, distance_false = _neq(value1, value2), _eq(value1, value2)
-                case PynguinCompare.LT:
+                    try:
+                        taken = bool(value1 == value2)
+                    except TypeError:
+                        taken = False
                     distance_true, distance_false = (
-                        _lt(value1, value2),
-                        _le(value2, value1),
+                        _eq(value1, value2, taken),
+                        _neq(value1, value2, not taken),
+                    )
+                case PynguinCompare.NE:
+                    taken = bool(value1 != value2)
+                    distance_true, distance_false = (
+                        _neq(value1, value2, taken),
+                        _eq(value1, value2, not taken),
+                    )
+                case PynguinCompare.LT:
+                    taken = bool(value1 < value2)
+                    distance_true, distance_false = (
+                        _lt(value1, value2, taken),
+                        _le(value2, value1, not taken),
                     )
                 case PynguinCompare.LE:
+                    taken = bool(value1 <= value2)
                     distance_true, distance_false = (
-                        _le(value1, value2),
-                        _lt(value2, value1),
+                        _le(value1, value2, taken),
+                        _lt(value2, value1, not taken),
                     )
                 case PynguinCompare.GT:
+                    taken = bool(value1 > value2)
                     distance_true, distance_false = (
-                        _lt(value2, value1),
-                        _le(value1, value2),
+                        _lt(value2, value1, taken),
+                        _le(value1, value2, not taken),
                     )
                 case PynguinCompare.GE:
+                    taken = bool(value1 >= value2)
                     distance_true, distance_false = (
-                        _le(value2, value1),
-                        _lt(value1, value2),
+                        _le(value2, value1, taken),
+                        _lt(value1, value2, not taken),
                     )
                 case PynguinCompare.IN:
+                    try:
+                        taken = bool(value1 in value2)
+                    except TypeError:
+                        taken = False
                     distance_true, distance_false = (
-                        _in(value1, value2),
-                        _nin(value1, value2),
+                        _in(value1, value2, taken),
+                        _nin(value1, value2, not taken),
                     )
                 case PynguinCompare.NOT_IN:
+                    try:
+                        taken = bool(value1 not in value2)
+                    except TypeError:
+                        taken = True
                     distance_true, distance_false = (
-                        _nin(value1, value2),
-                        _in(value1, value2),
+                        _nin(value1, value2, taken),
+                        _in(value1, value2, not taken),
                     )
                 case PynguinCompare.IS:
                     distance_true, distance_false = (
@@ -1376,10 +1461,14 @@ class ExecutionTracer(AbstractExecutionTracer):  # noqa: PLR0904
                     # Sized instances evaluate to False if they are empty,
                     # and to True otherwise, thus we can use their size as a distance
                     # measurement.
-                    distance_false = len(value)
+                    distance_false = _not_taken(float(len(value)))
                 elif is_numeric(value):
                     # For numeric value, we can use their absolute value
-                    distance_false = float(abs(value))
+                    try:
+                        distance_false = _not_taken(float(abs(value)))
+                    except (TypeError, ValueError, ArithmeticError):
+                        # E.g., an integer exceeding the range of floats
+                        distance_false = inf
                 else:
                     # Necessary to use inf instead of 1.0 here,
                     # so that a value for which we can't compute a false distance
@@ -1408,7 +1497,14 @@ class ExecutionTracer(AbstractExecutionTracer):  # noqa: PLR0904
         with self.temporarily_disable():
             value1 = tt.unwrap(value1)
             value2 = tt.unwrap(value2)
-            distance_true, distance_false = _in(value1, value2), _nin(value1, value2)
+            try:
+                taken = bool(value1 in value2)
+            except TypeError:
+                taken = False
+            distance_true, distance_false = (
+                _in(value1, value2, taken),
+                _nin(value1, value2, not taken),
+            )
             self._update_metrics(distance_false, distance_true, predicate)
 
     @_early_return
